@@ -327,6 +327,10 @@ def c05(case: Case):
             n += 1
             exp = _ref_norm(ann.ref())
             got = _stub_norm(sty)
+            dup = _duplicate_union_member(sty)
+            if dup is not None:
+                out.append({"what": f"type of {what} of {t['owner']}.{t['name']}: union {sdsparse.type_str(sty)!r} repeats the member {dup}",
+                            "decl": f"{t['owner']}.{t['name']}", "finding": None})
             if exp != got:
                 finding = None
                 if what == "property" and ann.kind == "tuple":
@@ -747,3 +751,260 @@ def c12(case: Case):
                 if f"{jid}/{mname}" not in ids["enum_instances"]:
                     out.append({"what": f"enum member {jid}/{mname} missing", "decl": jid, "finding": None})
     return out, n
+
+
+# ---------------------------------------------------------------------------------------------------------
+def c02(case: Case):
+    """every stub file parses as a Safe-DS stub module (strict reading: keywords only back-quoted, closed strings/comments)"""
+    out = []
+    n = 0
+    if case.answer.get("exc"):
+        return out, n
+    for path, text in impl_files(case).items():
+        n += 1
+        mod, err = sdsparse.parse(text, strict=True)
+        if err:
+            out.append({"what": f"{path} is not a valid stub file: {err}", "decl": path, "finding": None, "text": text[:1500]})
+    return out, n
+
+
+BUILTIN_SDS = {"Int", "String", "Boolean", "Float", "Nothing", "List", "Map", "Set", "Tuple", "Any"}
+
+
+def _type_names(t, acc: set):
+    if t is None:
+        return
+    k = t[0]
+    if k == "named":
+        acc.add(t[1])
+        for a in t[2] or []:
+            _type_names(a, acc)
+    elif k == "nullable":
+        _type_names(t[1], acc)
+    elif k == "union":
+        for a in t[1]:
+            _type_names(a, acc)
+    elif k == "callable":
+        for p in t[1]:
+            _type_names(p["type"], acc)
+        for r in t[2]:
+            _type_names(r["type"], acc)
+
+
+def c10(case: Case):
+    out = []
+    n = 0
+    if case.answer.get("exc"):
+        return out, n
+    files = case.answer.get("stubs", {})
+    pkgname = case.job["src"].rstrip("/").split("/")[-1]
+    if f"{pkgname}__api.json" not in files:
+        out.append({"what": f"{pkgname}__api.json is missing from the output directory", "decl": "", "finding": None})
+    for path, (mod, err) in parsed_files(impl_files(case)).items():
+        n += 1
+        segs = path.split("/")
+        if ".." in segs or path.startswith("/"):
+            out.append({"what": f"{path} is not inside the output directory", "decl": path, "finding": None})
+        if mod is None:
+            continue
+        if segs[:-1] != mod["python_module"].split("."):
+            out.append({"what": f"{path}: directory does not spell the announced module path {mod['python_module']}", "decl": path, "finding": None})
+        base = segs[-1][: -len(".sdsstub")]
+        names = {segs[-2].lstrip("_")} if len(segs) >= 2 else set()
+        names |= {d["pyname"].lstrip("_") for d in mod["decls"]}
+        if base.startswith("_") or base not in names:
+            out.append({"what": f"{path}: base name is neither its module nor a declaration it contains (without leading underscores)",
+                        "decl": path, "finding": None})
+    return out, n
+
+
+def c11(case: Case):
+    out = []
+    n = 0
+    if case.answer.get("exc"):
+        return out, n
+    parsed = parsed_files(impl_files(case))
+    declared_in_pkg: dict[str, set] = {}
+    for path, (mod, err) in parsed.items():
+        if mod is not None:
+            declared_in_pkg.setdefault(mod["package"], set()).update(d["name"] for d in mod["decls"])
+    for path, (mod, err) in parsed.items():
+        if mod is None:
+            continue
+        n += 1
+        imported = {name for _, name in mod["imports"]}
+        for frm, name in mod["imports"]:
+            if name not in declared_in_pkg.get(frm, set()):
+                out.append({"what": f"{path}: import of {name} from {frm} does not resolve to a generated stub", "decl": path, "finding": None})
+        for owner, d in sdsparse.walk_decls(mod):
+            local = {x["name"] for x in mod["decls"]}
+            refs: set = set()
+            tps = {t["name"] for t in d.get("tparams", [])}
+            if d["kind"] in ("fun", "class"):
+                for p in d.get("params") or []:
+                    _type_names(p["type"], refs)
+                for r in d.get("results", []):
+                    _type_names(r["type"], refs)
+                for s_ in d.get("supers", []):
+                    _type_names(s_, refs)
+            if d["kind"] == "attr":
+                _type_names(d["type"], refs)
+            for r in refs:
+                head = r.split(".")[0]
+                if head in BUILTIN_SDS or head in local or head in imported or head in tps:
+                    continue
+                # type parameters of enclosing classes and nested class names
+                encl = _enclosing_names(mod, owner)
+                if head in encl:
+                    continue
+                finding = None
+                if head.startswith("_"):
+                    finding = "private_class_as_type"
+                elif case.job.get("nc") and head in ({x["pyname"] for x in mod["decls"]} | {nm for _, nm in _py_imports(case, mod)}):
+                    finding = "nc_class_reference_not_converted"
+                out.append({"what": f"{path}: {head} used in {d['pyname']} is neither built in, declared nor imported", "decl": path,
+                            "finding": finding})
+    return out, n
+
+
+def _enclosing_names(mod, owner: str) -> set:
+    names: set = set()
+    def rec(d, chain):
+        if d["kind"] == "class":
+            here = chain + [d["pyname"]]
+            names_here = {t["name"] for t in d.get("tparams", [])} | {m["name"] for m in d["members"] if m["kind"] == "class"}
+            if ".".join(here).startswith(owner) or owner.startswith(".".join(here)):
+                names.update(names_here)
+            for m in d["members"]:
+                rec(m, here)
+    for d in mod["decls"]:
+        rec(d, [])
+    return names
+
+
+def c13(case: Case):
+    """descriptions reach the comment of their own element and of no other (descriptions carry the element's name)"""
+    out = []
+    n = 0
+    if case.answer.get("exc"):
+        return out, n
+    idx, errors = index_stubs(impl_files(case))
+    if errors:
+        return out, n
+    for t in truth_decls(case.pkg):
+        obj = t["obj"]
+        doc = getattr(obj, "doc", "")
+        if not t["public"] or not doc or t["kind"] == "attr":
+            continue
+        owner, name = expected_location(t)
+        hits = idx.get((owner, name, STUB_KIND[t["kind"]]), [])
+        if len(hits) != 1:
+            continue
+        d = hits[0][1]
+        n += 1
+        lines = [ln for dt in d["doc"] for ln in sdsparse.doc_lines(dt)]
+        want = [ln.strip() for ln in doc.strip("\n").split("\n")]
+        got = [ln.strip() for ln in lines[: len(want)]]
+        if got != want:
+            out.append({"what": f"description of {t['owner']}.{t['name']} is not reproduced line for line: {lines[:4]} vs {want[:4]}",
+                        "decl": f"{t['owner']}.{t['name']}", "finding": None})
+    # no comment carries the description of another element
+    for (own, name, kind), hits in idx.items():
+        if kind == "member":
+            continue
+        for path, d in hits:
+            for dt in d.get("doc", []):
+                for ln in sdsparse.doc_lines(dt):
+                    if ln.startswith("Doc of "):
+                        mentioned = ln[len("Doc of "):].split(".")[0].replace("class ", "").strip()
+                        if mentioned != name and not _alias_of(case, mentioned, name):
+                            out.append({"what": f"comment of {own}.{name} carries the description of {mentioned}", "decl": f"{own}.{name}", "finding": None})
+    return out, n
+
+
+def _alias_of(case: Case, original: str, alias: str) -> bool:
+    return any(r[2] == original and r[3] == alias for i in case.pkg.inits for r in i.reexports)
+
+
+def c17(case: Case):
+    out = []
+    n = 0
+    if case.answer.get("exc"):
+        return out, n
+    idx, errors = index_stubs(impl_files(case))
+    if errors:
+        return out, n
+    by_name = {}
+    for m in case.pkg.modules:
+        for c in _all_classes(m):
+            by_name[c.name] = c
+    for t in truth_decls(case.pkg):
+        if t["kind"] != "class" or not t["public"] or not t["obj"].base_refs:
+            continue
+        c = t["obj"]
+        owner, name = expected_location(t)
+        hits = idx.get((owner, name, "class"), [])
+        if len(hits) != 1:
+            continue
+        d = hits[0][1]
+        n += 1
+        pub_supers = [nm for nm, mod, priv in c.base_refs if not priv]
+        got_supers = [sdsparse.type_str(s_).split("<")[0] for s_ in d["supers"]]
+        if got_supers != pub_supers:
+            out.append({"what": f"sub clause of {t['owner']}.{t['name']}: {got_supers}, expected {pub_supers}", "decl": t["name"], "finding": None})
+        # expected member functions: own public ones, then those of private ancestors (nearest first) not yet defined
+        defined = [f.name for f in c.methods if not is_private_name(f.name)] + [a.name for a in c.attrs if not is_private_name(a.name)]
+        expected = [f.name for f in c.methods if not is_private_name(f.name)]
+        stack = [by_name[nm] for nm, mod, priv in c.base_refs if priv and nm in by_name]
+        while stack:
+            anc = stack.pop(0)
+            for f in anc.methods:
+                if not is_private_name(f.name) and f.name not in defined:
+                    expected.append(f.name)
+                    defined.append(f.name)
+            stack = [by_name[nm] for nm, mod, priv in anc.base_refs if priv and nm in by_name] + stack
+        got = [m["pyname"] for m in d["members"] if m["kind"] == "fun" or (m["kind"] == "attr" and m["pyname"] in expected and
+               m["pyname"] not in [a.name for a in c.attrs])]
+        if sorted(got) != sorted(expected):
+            out.append({"what": f"members of {t['owner']}.{t['name']}: {sorted(got)}, expected {sorted(expected)}", "decl": t["name"], "finding": None})
+    return out, n
+
+
+def _py_imports(case: Case, mod) -> list:
+    """imports of the stub with their Python spelling (a converted import `from p import FooBar` imports foo_bar)"""
+    out = []
+    for m in case.pkg.modules:
+        for c in _all_classes(m):
+            out.append((m.dotted, c.name))
+    return out
+
+
+def _duplicate_union_member(t):
+    """a union (at any depth) two of whose members are the same type"""
+    if t is None:
+        return None
+    k = t[0]
+    if k == "union":
+        seen = []
+        for m in t[1]:
+            nm = _stub_norm(m)
+            if nm in seen:
+                return sdsparse.type_str(m)
+            seen.append(nm)
+        for m in t[1]:
+            d = _duplicate_union_member(m)
+            if d:
+                return d
+    elif k == "named":
+        for a in t[2] or []:
+            d = _duplicate_union_member(a)
+            if d:
+                return d
+    elif k == "nullable":
+        return _duplicate_union_member(t[1])
+    elif k == "callable":
+        for x in [p["type"] for p in t[1]] + [r["type"] for r in t[2]]:
+            d = _duplicate_union_member(x)
+            if d:
+                return d
+    return None
